@@ -374,3 +374,25 @@ def run(index, rep, tier):
         for c, txt, strict in pairs:
             rep.check(strict, "R17.10", nl.qualname, "closed interval at the parent's end (%s)" % txt, fn_where(nl, c), "num_lineages_at: the parent's end of the edge is exclusive",
                       "Tree.num_lineages_at tests `%s`: an edge whose parent sits exactly at the distance is counted although the edge ending at that parent is counted as well - the number of lineages at the depth of a branching point comes out as 1 + the number of children instead of the number of edges crossing it" % txt)
+
+    # ---- R17.11 a statistic measures the tree it is given, not an earlier state of it
+    with rep.section("R17.11"):
+        rep.rule("R17.11", "a statistic measures the tree it is given: a function of treemeasure (or Tree.num_lineages_at, or the coalescent interval helpers) that reads the per-node `age` / `root_distance` has, on every path to the read, called calc_node_ages / calc_node_root_distances itself - the attributes are caches of an earlier call, never invalidated by an edit of the edge lengths, and a computation that runs only `if <seed>.age is None` also skips the ultrametricity check the caller asked for")
+        n11 = 0
+        targets = [f for f in index.functions_in_module("dendropy.calculate.treemeasure") if f.cls is None] + [index.function(TREE + ".num_lineages_at")] + [f for f in index.functions_in_module("dendropy.model.coalescent") if f.cls is None]
+        for fi in targets:
+            reads = [x for x in ast.walk(fi.node) if isinstance(x, ast.Attribute) and x.attr in ("age", "root_distance") and isinstance(x.ctx, ast.Load)]
+            if not reads:
+                continue
+            g = cfg_of(fi)
+            for x in reads:
+                nd = node_of_ast(g, x)
+                if nd is None:
+                    continue
+                n11 += 1
+                fn = "calc_node_ages" if x.attr == "age" else "calc_node_root_distances"
+                ok = g.dominated_by(nd, lambda n, fn=fn: any(call_name(c) == fn for c in node_calls(n)), follow_exc=False)
+                # a read inside the very test that decides whether to compute is the stale-cache idiom itself
+                rep.check(ok, "R17.11", fi.qualname, "`%s` read without recomputing it" % norm(x), fn_where(fi, x), "%s: %s read after %s()" % (fi.name, norm(x), fn),
+                          "%s reads `%s` on a path on which it has not called %s(): the value is whatever an earlier call left on the node, so after the edge lengths were edited the statistic is that of the OLD tree (pybus_harvey_gamma gave 0.1111 instead of -0.5238), and a tree whose ages were once computed with the check disabled is never tested for ultrametricity again" % (fi.qualname, norm(x), fn))
+        rep.floor("R17.11", "reads of cached ages / root distances in the statistics", 5, n11)
